@@ -1845,7 +1845,7 @@ class BodyElementComparison_GreaterThanOrEqual(BodyElementComparison):
     COMPARISON_OPERATOR_STR = '>='
 
     def _doComparison(self, leftSideValue, rightSideValue):
-        return BodyElementValue_Boolean( leftSideValue <= rightSideValue )
+        return BodyElementValue_Boolean( leftSideValue >= rightSideValue )
 
 
 BEC_GREATER_THAN_OR_EQUAL_RE = re.compile(r'^([ \t]*[>][=][ \t]*)')
